@@ -33,7 +33,13 @@ type Case struct {
 	Prefill int      `json:"prefill,omitempty"` // btree: records present at start; fwriter: attributes present at start
 	Node    int      `json:"node,omitempty"`    // btree: node size
 	FileMB  int      `json:"file_mb,omitempty"` // smart: file size reported by the fake index
+	MinConf  int      `json:"min_conf,omitempty"`  // smart: selector's minimum confidence in percent
+	StableUS int      `json:"stable_us,omitempty"` // smart: selector's minimum stability period in microseconds
+	PreEnable bool   `json:"pre_enable,omitempty"` // btree: incremental mode is enabled before the goroutines start (no enable/stop race window)
 	Threads []Thread `json:"threads"`
+	// Expect is a replay hint only: the finding a saved case is meant to reproduce. When a program hits several
+	// open findings it decides which one the verdict names; it never turns a violation into anything else.
+	Expect string `json:"expect,omitempty"`
 }
 
 // Limits are the liveness bounds used by the child's watchdog (never a correctness signal on their own:
@@ -61,6 +67,21 @@ type Hang struct {
 	Stacks string   `json:"stacks"`
 }
 
+// PanicInfo describes a library call that panicked in the concurrent phase although the same call did not panic
+// (or panicked differently) in the sequential reference. The child stops at once: a panic that unwinds out of a
+// sync primitive leaves the goroutine's race-detector state unusable, so nothing after it is trustworthy.
+type PanicInfo struct {
+	Thread int    `json:"thread"`
+	Op     string `json:"op"`
+	Phase  string `json:"phase"`
+	Msg    string `json:"msg"`
+	Frame  string `json:"frame"` // innermost library frame below the panic
+	Stack  string `json:"stack"`
+	// RaceLogBytes is the size of this process's race log when the panic was caught; reports after that offset
+	// are discarded by the parent (-1: unknown).
+	RaceLogBytes int64 `json:"race_log_bytes"`
+}
+
 // Leak describes goroutines that outlived Close/Stop.
 type Leak struct {
 	Extra  int      `json:"extra"`
@@ -75,6 +96,7 @@ type Outcome struct {
 	Mismatch   []string `json:"mismatch,omitempty"`    // concurrent results that differ from the sequential ones
 	Invariant  []string `json:"invariant,omitempty"`   // violated sanity conditions (progress values, final counters)
 	Hang       *Hang    `json:"hang,omitempty"`
+	Panic      *PanicInfo `json:"panic,omitempty"`
 	Leak       *Leak    `json:"leak,omitempty"`
 	Overlap    bool     `json:"overlap"`   // >= 2 goroutines had overlapping activity windows on the library
 	Peak       int      `json:"peak"`      // peak number of goroutines simultaneously inside a library call
